@@ -47,7 +47,8 @@ def ENCODED():
             hc.LiveRangeInfo.overlaps, hc.LiveRangeInfo.is_neighbour, hc.LiveRangeInfo.__lt__, ga.GreedyAllocator.alloc,
             ga.GreedyAllocator.dealloc, ga.GreedyAllocator.allocate_live_ranges, ta.linear_allocate_live_ranges,
             ta.hillclimb_allocate_live_ranges, ta.verify_allocation, ta.verify_alignment, nu.round_up, lr.LiveRange.set_address,
-            lr.LiveRange.overlaps_address, lr.LiveRange.__lt__]
+            lr.LiveRange.overlaps_address, lr.LiveRange.__lt__, lr.LiveRange.mark_usage, lr.merge_elementwise_op_ranges, lr._get_ifm_to_fuse,
+            lr.tensor_should_be_ignored, lr.extract_live_ranges_from_schedule, ta.allocate]
 
 
 class _Obj:
